@@ -105,8 +105,11 @@ func (c *Ctx) InstantiateHints(asserts []*Term, maxPerQuant int) (extra []*Term,
 	cand := map[int]*Term{}
 	seen := map[int]bool{}
 	add := func(t *Term) {
-		if t.open || t.IsConst() || t.S.Kind != KBV {
+		if t.open || t.S.Kind != KBV {
 			return
+		}
+		if t.IsConst() && !(t.S.W == 32 && t.V>>16 == 0x0800) {
+			return // constants only when they name ghost snapshot objects (frame axioms range over references)
 		}
 		cand[t.id] = t
 	}
@@ -225,4 +228,40 @@ func HasQuant(ts ...*Term) bool {
 		}
 	}
 	return false
+}
+
+// SmallAsserts keeps the assertions whose term DAG has at most maxNodes nodes and no quantifier,
+// plus the last one (the negated goal). The result is a subset of the problem.
+func SmallAsserts(asserts []*Term, maxNodes int) []*Term {
+	size := func(t *Term) int {
+		seen := map[int]bool{}
+		n := 0
+		var rec func(t *Term) bool
+		rec = func(t *Term) bool {
+			if seen[t.id] {
+				return true
+			}
+			seen[t.id] = true
+			n++
+			if n > maxNodes || t.Op == "forall" || t.Op == "exists" || t.Op == "lambda" {
+				n = maxNodes + 1
+				return false
+			}
+			for _, a := range t.Args {
+				if !rec(a) {
+					return false
+				}
+			}
+			return true
+		}
+		rec(t)
+		return n
+	}
+	var out []*Term
+	for i, a := range asserts {
+		if i == len(asserts)-1 || size(a) <= maxNodes {
+			out = append(out, a)
+		}
+	}
+	return out
 }
